@@ -377,6 +377,30 @@ theorem exec_posterior_arms (p : ANiw d) (hp : p.Valid) (xs : List (V d)) :
       = p.toExec.posterior (.suffStat ((MvGaussianSuffStat.new d).observe_many (xs.map toVec))) := by
   rw [exec_posterior_data p hp, stat_ofData_bridge, exec_posterior_stat p hp, niw_posterior_arms]
 
+/-! ## draws: the deterministic part of `NormalInvWishart::draw` -/
+
+-- @site NormalInvWishart::draw
+/-- the drawn mean is `μ₀ + L′z` with `L′L′ᵀ = Σ/κ` (a Gaussian built on `Σ/κ`): variates of covariance `1` give a mean of
+    covariance `Σ/κ` — not `Σ/κ²` -/
+theorem niw_draw_mean_cov (p : ANiw d) (θ inner : AMvg d) (hin : p.InnerOk θ inner) (z : V d) :
+    inner.drawZ z = p.mu + inner.L *ᵥ z ∧ inner.L * (1 : Mx d) * inner.Lᵀ = p.k⁻¹ • θ.cov := by
+  refine ⟨?_, ?_⟩
+  · rw [mvg_draw_eq inner hin.valid, hin.mu]
+  · rw [mvg_draw_cov inner hin.valid, hin.cov]
+
+-- @site NormalInvWishart::draw
+/-- the scaled Mahalanobis distance of the drawn mean is the squared norm of the variates, whatever `κ`:
+    `κ (μ−μ₀)ᵀ Σ⁻¹ (μ−μ₀) = zᵀz` (so it is χ²_d for standard-normal `z`; the harness checks its mean `d`) -/
+theorem niw_draw_mahalanobis (p : ANiw d) (hk : 0 < p.k) (θ inner : AMvg d) (hθ : θ.Valid) (hin : p.InnerOk θ inner)
+    (z : V d) : p.k * quadA θ.inv (inner.drawZ z - p.mu) = z ⬝ᵥ z := by
+  have hL : inner.Lᵀ * (inner.inv * inner.L) = 1 := by
+    apply mul_eq_one_comm.mp
+    rw [Matrix.mul_assoc, hin.valid.chol]; exact hin.valid.inv
+  rw [(niw_draw_mean_cov p θ inner hin z).1, add_sub_cancel_left, ← quadA_smul, ← inner_inv hk hθ hin, quadA_eq,
+    ← vecMul_transpose, ← dotProduct_mulVec, mulVec_mulVec, vecMul_transpose, mulVec_mulVec, Matrix.mul_assoc, hL,
+    one_mulVec]
+
+example : (0 : ℝ) < exNiw.k := exNiw_valid.1
 end C15
 
 #print axioms C15.exNiw_valid
@@ -407,3 +431,5 @@ end C15
 #print axioms C15.exec_posterior_stat
 #print axioms C15.exec_posterior_data
 #print axioms C15.exec_posterior_arms
+#print axioms C15.niw_draw_mean_cov
+#print axioms C15.niw_draw_mahalanobis
